@@ -49,7 +49,8 @@ TRUSTED = [
 ]
 ASSUMPTIONS = ["cloudpickle transports plain data unchanged; hash_function of an attribute value is the same in both "
                "processes (PYTHONHASHSEED fixed)"]
-RULE = ("a case is (task kind and inputs, worker, audit flags); distinct = distinct (task kind, inputs, worker, audit); "
+RULE = ("a case is (task kind and inputs, worker, how the worker was configured: by name+kwargs / as an object / mutated "
+        "afterwards, audit flags); distinct = distinct tuples of those; "
         "non-trivial = the job's graph holds at least one live resource (event loop, process pool) and the job was "
         "run in the receiving interpreter")
 
@@ -234,8 +235,15 @@ REQUIRED = {"Job": ["task", "submitter", "name", "environment", "state_index", "
             "Submitter": ["audit", "_cache_root", "readonly_caches", "propagate_rerun", "max_concurrent", "environment",
                           "worker", "clean_stale_locks"],
             "Audit": ["audit_flags", "messengers", "messenger_args", "develop"]}
+WORKER_OBJ_KW = {"debug": {}, "cf": {"n_procs": 3}, "slurm": {"poll_delay": 4, "sbatch_args": "-N2 --mem=1G"},
+                 "sge": {"poll_delay": 5, "qsub_args": "-q long", "max_job_array_length": 7}}
 WORKER_KW = {"debug": {}, "cf": {"n_procs": 2}, "slurm": {"poll_delay": 2, "sbatch_args": "-N1"},
              "sge": {"poll_delay": 3, "qsub_args": "-q x"}}
+
+
+def worker_config(worker, kw):
+    """class and every configured attribute of a worker, as seen in this process"""
+    return {"class": type(worker).__name__, **{k: repr(getattr(worker, k, "<missing>")) for k in sorted(kw)}}
 
 
 def child_send(root):
@@ -260,12 +268,22 @@ def child_send(root):
                 with Submitter(cache_root=os.path.join(d, "cacheC"), worker="cf", n_procs=2) as sub:
                     rec["cf_result"] = outputs_repr(sub(make(c["task"]), raise_errors=False))
             task = make(c["task"])
-            kw = dict(WORKER_KW[c["worker"]])
+            how = c.get("how", "name")
+            kw = dict(WORKER_OBJ_KW[c["worker"]] if how in ("object", "mutated") else WORKER_KW[c["worker"]])
             akw = {}
             if c["audit"] == "prov":
                 akw = dict(audit_flags=AuditFlag.PROV, messengers=FileMessenger(),
                            messenger_args={"message_dir": os.path.join(d, "msgs")})
-            sub = Submitter(cache_root=os.path.join(d, "cacheA"), worker=c["worker"], **akw, **kw)
+            if how == "object":       # the worker is handed over as an already configured object
+                from pydra.workers.base import Worker
+                sub = Submitter(cache_root=os.path.join(d, "cacheA"), worker=Worker.plugin(c["worker"])(**kw), **akw)
+            elif how == "mutated":    # ... or configured after the submitter was made
+                sub = Submitter(cache_root=os.path.join(d, "cacheA"), worker=c["worker"], **akw)
+                for k, v in kw.items():
+                    setattr(sub.worker, k, v)
+            else:
+                sub = Submitter(cache_root=os.path.join(d, "cacheA"), worker=c["worker"], **akw, **kw)
+            rec["worker_config"] = worker_config(sub.worker, kw)
             job = Job(task=task, submitter=sub, name="main")
             rec["checksum"] = job.checksum
             rec["before"] = abstract(job)
@@ -293,6 +311,9 @@ def child_recv(root):
             with open(os.path.join(d, "job.pkl"), "rb") as f:
                 job = cp.load(f)
             rec["after"] = abstract(job, after=True)
+            how = c.get("how", "name")
+            kw = WORKER_OBJ_KW[c["worker"]] if how in ("object", "mutated") else WORKER_KW[c["worker"]]
+            rec["worker_config"] = worker_config(job.submitter.worker, kw)
             rec["checksum"] = job.checksum
             if c["run"]:
                 try:
@@ -371,7 +392,8 @@ def gen_config(rng, i, worker=None):
     kinds = ["add", "cat", "echo"] + (["chain", "fan", "mixed"] * 2 if worker in ("debug", "cf") else [])
     kind = rng.choice(kinds)
     task = {"kind": kind, "a": rng.randrange(0, 50), "b": rng.randrange(0, 50), "s": rng.choice(WORDS), "n": rng.randrange(0, 4)}
-    return {"id": i, "task": task, "worker": worker, "audit": rng.choice(["none", "none", "prov"]), "run": True,
+    return {"id": i, "task": task, "worker": worker, "how": rng.choice(["name", "object", "object", "mutated"]),
+            "audit": rng.choice(["none", "none", "prov"]), "run": True,
             "cf_run": kind in ("add", "cat", "echo", "chain") and rng.random() < 0.3}
 
 
@@ -485,6 +507,8 @@ def judge(c, r):
     if "error" in v:
         bad.append(("the job could not be loaded in the other process", v["error"][-600:], "cloudpickle.load succeeds"))
         return bad
+    if v.get("worker_config") != s.get("worker_config"):
+        bad.append(("configuration of the deserialized submitter's worker", v.get("worker_config"), s.get("worker_config")))
     if v["checksum"] != s["checksum"]:
         bad.append(("cache identity of the deserialized job", v["checksum"], s["checksum"]))
     if c["run"]:
@@ -506,23 +530,26 @@ def run(ctx):
     rng = ctx.rng
     n = ctx.budget(15, 78)
     configs = [dict(c) for c in ctx.corpus()]
-    for w in ("debug", "cf", "slurm", "sge"):
-        configs.append(gen_config(rng, 0, w))
+    for w in ("debug", "cf", "slurm", "sge"):      # every worker at least once as a pre-configured object
+        c0 = gen_config(rng, 0, w)
+        c0["how"] = "object"
+        configs.append(c0)
     while len(configs) < n:
         configs.append(gen_config(rng, 0))
     for i, c in enumerate(configs):
         c["id"] = i
     recs = run_batches(configs, timeout=ctx.budget(400, 1200) if ctx.widen == 1 else 2400)
     out = Outcome(rule=RULE)
-    dist = {"worker_debug": 0, "worker_cf": 0, "worker_slurm": 0, "worker_sge": 0, "audit_prov": 0, "cf_worker_runs": 0,
+    dist = {"how_name": 0, "how_object": 0, "how_mutated": 0, "worker_debug": 0, "worker_cf": 0, "worker_slurm": 0, "worker_sge": 0, "audit_prov": 0, "cf_worker_runs": 0,
             "jobs_run_in_other_process": 0, "classes_in_tables": {}, "attributes_compared": 0}
     for k in ("add", "cat", "echo", "chain", "fan", "mixed"):
         dist["task_" + k] = 0
     enc_cases, meta, seen = [], [], set()
     for c in configs:
         r = recs[c["id"]]
-        pub = {k: c[k] for k in ("task", "worker", "audit", "run", "cf_run") if k in c}
+        pub = {k: c[k] for k in ("task", "worker", "how", "audit", "run", "cf_run") if k in c}
         dist["worker_" + c["worker"]] += 1
+        dist["how_" + c.get("how", "name")] += 1
         dist["task_" + c["task"]["kind"]] += 1
         dist["audit_prov"] += c["audit"] == "prov"
         dist["cf_worker_runs"] += bool(c.get("cf_run"))
@@ -547,7 +574,7 @@ def run(ctx):
         dist["attributes_compared"] += json.dumps(s["before"]).count('["data"') + json.dumps(s["before"]).count('["none"')
         ran = bool(v and "result" in v)
         dist["jobs_run_in_other_process"] += ran
-        key = (json.dumps(c["task"], sort_keys=True), c["worker"], c["audit"])
+        key = (json.dumps(c["task"], sort_keys=True), c["worker"], c.get("how", "name"), c["audit"])
         if key not in seen:
             seen.add(key)
             if has_live(s["before"]) and ran:
